@@ -22,8 +22,14 @@ MANIFEST = dict(
 NU = "esutil.numpy_util."
 
 
+# rules that keep their verdict however the code is laid out (decided by term equality, effect analysis or dominance over
+# resolved calls); every other rule of this check is a template rule (vcheck.core.Check.obt)
+SEMANTIC = ('R07.alloc', 'R07.args', 'R07.copier', 'R07.defaults', 'R07.fresh')
+
+
 def run(chk):
     repo = PyRepo()
+    chk.set_templates(repo, semantic=SEMANTIC)
     eng = effects.Effects(repo, c_summaries())
     chk.explanation = MANIFEST["text"]
     chk.trusted = ["numpy field assignment", "numpy.dtype duplicate-name rejection", "CPython ast"]
